@@ -120,6 +120,11 @@ class SymCtx:
 
   # ---- conditions ------------------------------------------------------------------------
   def eq(self, a, b, tol=None):
+    if not core.is_sym(a) and not core.is_sym(b) and not isinstance(a, z3.ExprRef) and not isinstance(b, z3.ExprRef):
+      # two numbers computed in float64 by the code / the oracle: compare as the concrete mode would
+      fa, fb = float(a), float(b)
+      t_ = 1e-9 if tol is None else tol
+      return z3.BoolVal(bool(fa == fb or abs(fa - fb) <= t_ * (1.0 + max(abs(fa), abs(fb)))))
     ta, tb = core._coerce(_t(a), _t(b))
     return ta == tb
 
